@@ -71,6 +71,10 @@ def forced_feature_cases(rng):
                                                          "cfg.palette_level": 1, "content": "screen"}))
     out.append(base(frames=9, width=352, height=288, **{"cfg.tile_columns": 2, "cfg.tile_rows": 1, "content": "mix",
                                                         "cfg.logical_processors": 8}))
+    # tiles whose compressed sizes differ by orders of magnitude (size-field width is chosen per frame)
+    out.append(base(frames=9, width=128, height=128, content="splitv", **{"cfg.tile_rows": 1, "cfg.logical_processors": 4, "cfg.qp": 20}))
+    out.append(base(frames=9, width=256, height=128, content="splith", **{"cfg.tile_columns": 1, "cfg.logical_processors": 4, "cfg.qp": 30}))
+    out.append(base(frames=6, width=256, height=256, content="splitv", **{"cfg.tile_rows": 2, "cfg.tile_columns": 1, "cfg.logical_processors": 8, "cfg.qp": 10}))
     out.append(base(frames=9, width=70, height=94, content="gradient"))
     out.append(base(frames=9, width=66, height=66, content="extreme", **{"cfg.qp": 0}))
     out.append(base(frames=9, content="noise", **{"cfg.qp": 63}))
@@ -210,12 +214,17 @@ def _ipmg_region(case):
     return 1 <= lp <= 2 and ip >= 1 and hl >= 1 and (ip + 1) % (1 << hl) == 0
 
 
+def _sbcol_region(case):
+    """third deadlock family (C24 finding): one superblock column with >= 2 segment rows"""
+    return int(case.get("width", 64)) <= 64 and int(case.get("height", 64)) >= 96 and int(case.get("cfg.logical_processors", 0)) not in (1, 2, 3)
+
+
 def known_hang_region(case):
     """Configurations already known to deadlock the encoder (open findings).  Checks for which a hang is in scope
     still run them (short watchdog); the others skip them because they cannot be judged there."""
     try:
         n = int(case.get("frames", 0))
-        return (_hl5_region(case) and n >= 32) or (_ipmg_region(case) and n >= 10)
+        return (_hl5_region(case) and n >= 32) or (_ipmg_region(case) and n >= 10) or (_sbcol_region(case) and n >= 1)
     except ValueError:
         return False
 
@@ -226,6 +235,8 @@ def hang_sig(case):
             return "hl5+(overlays|lp<=2)"
         if _ipmg_region(case):
             return "lp<=2+intra-period-whole-minigops"
+        if _sbcol_region(case):
+            return "single-sb-column+rows>=2"
     except ValueError:
         pass
     return feature_sig(case) + "|hl%s+lp%s" % (case.get("cfg.hierarchical_levels", "d"), case.get("cfg.logical_processors", "d"))
